@@ -240,7 +240,7 @@ func (cap *commandArgParser) parseInputBlock(args redisArgs, argIndex int, input
 		} else {
 			if arg.Optional && arg.isToken() {
 				// optional value args that have tokens can be reordered
-				args = append(args, skippedOptionals...)
+				args = append(append(redisArgs{}, args...), skippedOptionals...) // never grow the shared grammar slice in place
 				skippedOptionals = redisArgs{}
 			}
 			inputsUsed += subInputsUsed
@@ -301,7 +301,7 @@ func (cap *commandArgParser) parseEachInput(args redisArgs, input ...respValue) 
 		} else {
 			if arg.Optional && arg.isToken() {
 				// optional args that have tokens can be reordered
-				args = append(args, skippedOptionals...)
+				args = append(append(redisArgs{}, args...), skippedOptionals...) // never grow the shared grammar slice in place
 				skippedOptionals = redisArgs{}
 			}
 
